@@ -27,14 +27,14 @@ TABLE = {
     T + "get_src": [["tuple(Token::get_src_line(arg1),Token::get_src_col(arg1))"]],
     T + "get_raw_token": [["arg1.raw"]],
     T + "sourcemap": [["arg1.sm"]],
-    SM + "get_file": [["Option::as_deref(arg1.file)"]],
-    SM + "get_source_root": [["Option::as_deref(arg1.source_root)"]],
+    SM + "get_file": [["Option::as_ref(arg1.file)"]],
+    SM + "get_source_root": [["Option::as_ref(arg1.source_root)"]],
     SM + "get_debug_id": [["arg1.debug_id"]],
     SM + "get_token_count": [["cast<u32>(Vec::len(arg1.tokens))"]],
     SM + "get_source_count": [["cast<u32>(Vec::len(arg1.sources))"]],
     SM + "get_name_count": [["cast<u32>(Vec::len(arg1.names))"]],
-    SM + "get_name": [["Option::map(slice::get(arg1.names,cast<usize>(arg2)),\u03bb(p1[RangeFull{}]))"]],
-    SM + "get_source": [["Option::map(slice::get(Option::unwrap_or(Option::as_deref(arg1.sources_prefixed),arg1.sources),cast<usize>(arg2)),\u03bb(p1[RangeFull{}]))"]],
+    SM + "get_name": [["slice::get(arg1.names,cast<usize>(arg2))"]],
+    SM + "get_source": [["slice::get(Option::unwrap_or(Option::as_ref(arg1.sources_prefixed),arg1.sources),cast<usize>(arg2))"]],
     SM + "get_source_contents": [["Option::map(Option::and_then(slice::get(arg1.sources_content,cast<usize>(arg2)),fn:Option::as_ref),fn:SourceView::source)"]],
     SM + "get_source_view": [["Option::and_then(slice::get(arg1.sources_content,cast<usize>(arg2)),fn:Option::as_ref)"]],
     SM + "get_token": [["Option::map(slice::get(arg1.tokens,arg2),\u03bb(Token{raw:p1,sm:^arg1,idx:^arg2,offset:0}))"]],
@@ -46,23 +46,27 @@ TABLE = {
     SEC + "get_offset_line": [["arg1.offset.0"]],
     SEC + "get_offset_col": [["arg1.offset.1"]],
     SEC + "get_offset": [["arg1.offset"]],
-    SEC + "get_url": [["Option::as_deref(arg1.url)"]],
-    SEC + "get_sourcemap": [["Option::map(Option::as_ref(arg1.map),fn:AsRef::as_ref)"], ["Option::as_deref(arg1.map)"]],
+    SEC + "get_url": [["Option::as_ref(arg1.url)"]],
+    SEC + "get_sourcemap": [["Option::as_ref(arg1.map)"]],
     SEC + "new": [["SourceMapSection{offset:arg1,url:arg2,map:Option::map(arg3,fn:Box::new)}"]],
-    IDX + "get_file": [["Option::map(Option::as_ref(arg1.file),\u03bb(p1[RangeFull{}]))"], ["Option::as_deref(arg1.file)"]],
+    IDX + "get_file": [["Option::as_ref(arg1.file)"]],
     IDX + "get_section": [["slice::get(arg1.sections,cast<usize>(arg2))"]],
     IDX + "sections": [["SourceMapSectionIter{i:arg1,next_idx:0}"]],
     IDX + "new": [["SourceMapIndex{file:arg1,sections:arg2,x_facebook_offsets:Option::None{},x_metro_module_paths:Option::None{}}"]],
     IDX + "new_ram_bundle_compatible": [["SourceMapIndex{file:arg1,sections:arg2,x_facebook_offsets:arg3,x_metro_module_paths:arg4}"]],
-    "<types::TokenIter<'a> as core::iter::traits::iterator::Iterator>::next": [["Option::inspect(SourceMap::get_token(arg1.i,arg1.next_idx),closure:next::{closure#0})"]],
-    "<types::SourceIter<'a> as core::iter::traits::iterator::Iterator>::next": [["Option::inspect(SourceMap::get_source(arg1.i,arg1.next_idx),closure:next::{closure#0})"]],
-    "<types::NameIter<'a> as core::iter::traits::iterator::Iterator>::next": [["Option::inspect(SourceMap::get_name(arg1.i,arg1.next_idx),closure:next::{closure#0})"]],
-    "<types::SourceMapSectionIter<'a> as core::iter::traits::iterator::Iterator>::next": [["Option::inspect(SourceMapIndex::get_section(arg1.i,arg1.next_idx),closure:next::{closure#0})"]],
+    "<types::TokenIter<'a> as core::iter::traits::iterator::Iterator>::next": [["Option::inspect(SourceMap::get_token(arg1.i,arg1.next_idx),closure:next::{closure#0})"],
+                                                                              ["FromResidual::from_residual(break(Try::branch(SourceMap::get_token(arg1.i,arg1.next_idx))))", "Option::Some{0:try(SourceMap::get_token(arg1.i,arg1.next_idx))}"]],
+    "<types::SourceIter<'a> as core::iter::traits::iterator::Iterator>::next": [["Option::inspect(SourceMap::get_source(arg1.i,arg1.next_idx),closure:next::{closure#0})"],
+                                                                              ["FromResidual::from_residual(break(Try::branch(SourceMap::get_source(arg1.i,arg1.next_idx))))", "Option::Some{0:try(SourceMap::get_source(arg1.i,arg1.next_idx))}"]],
+    "<types::NameIter<'a> as core::iter::traits::iterator::Iterator>::next": [["Option::inspect(SourceMap::get_name(arg1.i,arg1.next_idx),closure:next::{closure#0})"],
+                                                                              ["FromResidual::from_residual(break(Try::branch(SourceMap::get_name(arg1.i,arg1.next_idx))))", "Option::Some{0:try(SourceMap::get_name(arg1.i,arg1.next_idx))}"]],
+    "<types::SourceMapSectionIter<'a> as core::iter::traits::iterator::Iterator>::next": [["Option::inspect(SourceMapIndex::get_section(arg1.i,arg1.next_idx),closure:next::{closure#0})"],
+                                                                              ["FromResidual::from_residual(break(Try::branch(SourceMapIndex::get_section(arg1.i,arg1.next_idx))))", "Option::Some{0:try(SourceMapIndex::get_section(arg1.i,arg1.next_idx))}"]],
     "<types::SourceContentsIter<'a> as core::iter::traits::iterator::Iterator>::next": [["Option::None{}", "Option::Some{0:SourceMap::get_source_contents(arg1.i,arg1.next_idx)}"]],
     "<types::Token<'_> as core::cmp::PartialEq>::eq": [["PartialEq::eq(arg1.raw,arg2.raw)"]],
-    "builder::SourceMapBuilder::get_source": [["Option::map(slice::get(arg1.sources,cast<usize>(arg2)),\u03bb(p1[RangeFull{}]))"]],
-    "builder::SourceMapBuilder::get_file": [["Option::as_deref(arg1.file)"]],
-    "builder::SourceMapBuilder::get_source_root": [["Option::as_deref(arg1.source_root)"]],
+    "builder::SourceMapBuilder::get_source": [["slice::get(arg1.sources,cast<usize>(arg2))"]],
+    "builder::SourceMapBuilder::get_file": [["Option::as_ref(arg1.file)"]],
+    "builder::SourceMapBuilder::get_source_root": [["Option::as_ref(arg1.source_root)"]],
     "builder::SourceMapBuilder::add_source": [["SourceMapBuilder::add_source_with_id(arg1,arg2,Not(0))"]],
 }
 
@@ -84,7 +88,7 @@ def returns(b):
     return out
 
 
-def accessors(ctx, rule, only=None):
+def accessors(ctx, rule, only=None, min_n=None):
     n = 0
     for path, alts in sorted(TABLE.items()):
         if only is not None and not any(path.startswith(p) or p in path for p in only):
@@ -99,16 +103,22 @@ def accessors(ctx, rule, only=None):
             g = GUARDS.get((path, sh))
             if g:
                 ctx.check(has_fact(b, bi, {}, g, (g[0], g[2], g[1])), rule, path, "guard:%s" % sh[:30], "the %s answer is given exactly under %s(%s,%s)" % (sh, g[0], g[1], g[2]), ctx.site(b, bi))
-    # iterator advance closures: +1
+    # iterator advance: +1, exactly once, after an element was obtained (in `next` or in the closure it hands to inspect)
     for it in ("TokenIter", "SourceIter", "NameIter", "SourceMapSectionIter"):
-        p = "<types::%s<'a> as core::iter::traits::iterator::Iterator>::next::{closure#0}" % it
+        p = "<types::%s<'a> as core::iter::traits::iterator::Iterator>::next" % it
         if only is not None and not any(x in p for x in only):
             continue
-        cl = ctx.body(p)
-        adv = [q.shape(cl.expr_of_rvalue(s["rv"])) for bi, si, s, it2 in cl.locations() if not it2 and s["k"] == "assign" and s["place"]["p"] and s["place"]["p"][-1].get("n") == "next_idx"]
-        ctx.check(adv == ["Add(1,^arg1.next_idx)"], rule, p, "advance", "%s advances by one after each yielded element" % it, detail=str(adv))
+        nb = ctx.body(p)
+        adv = []
+        for cl in [nb] + list(ctx.facts.closures_of(p)):
+            for bi, si, s, it2 in cl.locations():
+                if not it2 and s["k"] == "assign" and s["place"]["p"] and s["place"]["p"][-1].get("n") == "next_idx":
+                    sh = q.shape(cl.expr_of_rvalue(s["rv"])).replace("^", "")
+                    guarded = cl is not nb or any(f.op == "variant_in" and f.l.startswith("Try::branch(") and f.r == (0,) for f in q.facts_at(cl, bi, {}))
+                    adv.append((sh, guarded))
+        ctx.check(adv == [("Add(1,arg1.next_idx)", True)], rule, p, "advance", "%s advances by one after each yielded element (and only then)" % it, detail=str(adv))
     sc = ctx.body("<types::SourceContentsIter<'a> as core::iter::traits::iterator::Iterator>::next") if (only is None or any("SourceContentsIter" in x for x in only)) else None
     if sc is not None:
         adv = [q.shape(sc.expr_of_rvalue(s["rv"])) for bi, si, s, it2 in sc.locations() if not it2 and s["k"] == "assign" and s["place"]["p"] and s["place"]["p"][-1].get("n") == "next_idx"]
         ctx.check(adv == ["Add(1,arg1.next_idx)"], rule, sc.path, "advance", "SourceContentsIter advances by one", detail=str(adv))
-    ctx.floor(rule, "accessors", "accessors checked", n, 10 if only else 50)
+    ctx.floor(rule, "accessors", "accessors checked", n, min_n if min_n is not None else (10 if only else 50))
